@@ -510,6 +510,43 @@ func wsCfg(repo string) (pumpClosesQueue, writeSelectsClose, shutdownAlways, rep
 	return
 }
 
+// ---- mdns/mdns.go: every asynchronous report is guarded by a sequence check under a mutex
+func mdnsReportGuarded(repo string) bool {
+	f := parse(repo, "mdns/mdns.go")
+	calls, guardedCalls := 0, 0
+	ast.Inspect(f, func(x ast.Node) bool {
+		fl, ok := x.(*ast.FuncLit)
+		if !ok {
+			return true
+		}
+		if !containsCall(fl.Body, "ReportMdnsEntries") {
+			return true
+		}
+		hasLock := containsCall(fl.Body, "Lock")
+		hasGuard := false
+		for _, st := range fl.Body.List {
+			if ifs, ok := st.(*ast.IfStmt); ok && mentions(ifs.Cond, "reportedSeq") {
+				for _, b := range ifs.Body.List {
+					if _, ok := b.(*ast.ReturnStmt); ok {
+						hasGuard = true
+					}
+				}
+			}
+		}
+		if hasLock && hasGuard {
+			guardedCalls++
+		}
+		return true
+	})
+	ast.Inspect(f, func(x ast.Node) bool {
+		if c, ok := x.(*ast.CallExpr); ok && sel(c.Fun) == "ReportMdnsEntries" {
+			calls++
+		}
+		return true
+	})
+	return calls > 0 && calls == guardedCalls
+}
+
 func main() {
 	repo := flag.String("repo", "/repo", "repository root")
 	out := flag.String("out", "", "directory for the generated Lean files (default: print)")
@@ -612,6 +649,7 @@ func main() {
 		a, b, c, d := wsCfg(*repo)
 		files["WsFacts.lean"] = fmt.Sprintf("/- GENERATED by /verif/extract from /repo — do not edit. -/\nimport ShipVerif.Model.Ws\nnamespace ShipVerif.Generated\n\n/-- ws/websocket.go: design facts -/\ndef wsCfg : ShipVerif.Ws.Cfg := { pumpClosesQueue := %v, writeSelectsClose := %v, shutdownAlways := %v, reportIfFirst := %v }\n\nend ShipVerif.Generated\n", a, b, c, d)
 	}
+	files["AsyncFacts.lean"] = fmt.Sprintf("/- GENERATED by /verif/extract from /repo — do not edit. -/\nimport ShipVerif.Model.View\nnamespace ShipVerif.Generated\n\n/-- mdns/mdns.go: reports are delivered under a mutex and dropped when a newer snapshot was delivered -/\ndef mdnsReportCfg : ShipVerif.Async.Cfg := { guarded := %v }\n\nend ShipVerif.Generated\n", mdnsReportGuarded(*repo))
 	for name, text := range files {
 		if *out == "" {
 			fmt.Printf("-- FILE %s\n%s", name, text)
